@@ -33,6 +33,12 @@ def showOutcome : Outcome → String
   | .reject => "reject"
 
 def step (st : Unit) (j : Json) : Unit × List String :=
+  if jStr j "op" == "algfits" then
+    let sh := jObj j "shape"
+    let shape : KeyShape := match jStr sh "kind" with
+      | "ecdsa" => .ecdsa (jStr sh "curve") | "ed25519" => .ed25519 (jNat sh "len") | _ => .other
+    (st, [toString (algorithmFitsKey (jStr j "alg") shape)])
+  else
   if jStr j "op" != "consume" then (st, ["bad-op:" ++ jStr j "op"]) else
   let info := parseJws (jObj j "info")
   let v := jObj j "v"
